@@ -83,9 +83,17 @@ type zzC04Variant struct {
 	Global int   `json:"global"` // 4 bits: filtering, safe search, safe browsing, parental
 	W      int   `json:"w"`
 
-	// MacColon8: spell 8-byte macs with colons, as HardwareAddr.String does
-	// (syntactically also an IPv6 address), instead of dashes.
+	// MacColon8: register 8-byte macs with colons, as HardwareAddr.String
+	// does (syntactically also an IPv6 address), instead of dashes.
 	MacColon8 bool `json:"maccolon8"`
+
+	// MapStore: register IPv4 addresses and prefixes (also) in their
+	// IPv4-mapped IPv6 spelling ::ffff:a.b.c.d.  OddLease: a <<"macx">> lease
+	// carries a link-layer address of 4, 1, 16 or 7 bytes (otherwise one of
+	// the ordinary length that nobody registered).  Both are confined to a few
+	// segments while the finding they expose is open, see checks/c04.py.
+	MapStore bool `json:"mapstore"`
+	OddLease bool `json:"oddlease"`
 
 	// Zoned: the universe has IPv6 zones (address number = zone<<W | bits):
 	// IPv6 link-local base, whatever V6 says.
@@ -160,7 +168,34 @@ func (c zzC04Conc) addr(n int) (ip netip.Addr) {
 	return ip
 }
 
+// mapped is the IPv4-mapped IPv6 spelling of an IPv4 address.
+func zzC04Mapped(ip netip.Addr) (m netip.Addr) {
+	if !ip.Is4() {
+		return ip
+	}
+
+	return netip.AddrFrom16(ip.As16())
+}
+
+// zzC04Unmap is the IPv4 form of a prefix of IPv4-mapped addresses.
+func zzC04Unmap(p netip.Prefix) (u netip.Prefix) {
+	if !p.Addr().Is4In6() || p.Bits() < 96 {
+		return p
+	}
+
+	return netip.PrefixFrom(p.Addr().Unmap(), p.Bits()-96)
+}
+
 func (c zzC04Conc) prefix(base, l int) (p netip.Prefix) {
+	if l == 0 {
+		// The whole abstract address space: written as the whole real one
+		// (all addresses ever looked up lie in the embedded /24 or /120).
+		if c.v6() {
+			return netip.PrefixFrom(netip.IPv6Unspecified(), 0)
+		}
+
+		return netip.PrefixFrom(netip.IPv4Unspecified(), 0)
+	}
 	bits := 24 + l
 	if c.v6() {
 		bits = 120 + l
@@ -180,16 +215,36 @@ func (c zzC04Conc) mac(n int) (m net.HardwareAddr) {
 	return m
 }
 
-// macString is the spelling handed to SetIDs and Find.  An 8-byte address in
-// colon form is syntactically an IPv6 address (and SetIDs would store it as
-// one), so that length is spelled with dashes.
+// macString is the canonical lookup spelling of a mac.  An 8-byte address in
+// colon form is syntactically also an IPv6 address, so that length is spelled
+// with dashes here; the colon form is an alternative spelling (registered with
+// MacColon8, looked up as the soft "mac8colon" lookup).
 func (c zzC04Conc) macString(n int) (s string) {
 	s = c.mac(n).String()
-	if c.v.MacLen == 8 && !c.v.MacColon8 {
+	if c.v.MacLen == 8 {
 		s = strings.ReplaceAll(s, ":", "-")
 	}
 
 	return s
+}
+
+// leaseMAC is the link-layer address a DHCP lease carries for the lease value
+// id (a registered mac, or "macx": an address nobody can have registered).
+func (c zzC04Conc) leaseMAC(id zzC04ID) (m net.HardwareAddr) {
+	if id.K != "macx" {
+		return c.mac(id.X)
+	}
+	n := c.v.MacLen
+	if c.v.OddLease {
+		n = []int{4, 1, 16, 7}[c.mix(id.X, 93)%4]
+	}
+	m = make(net.HardwareAddr, n)
+	m[0] = 0xee
+	for i := 1; i < n; i++ {
+		m[i] = byte(c.mix(id.X, 200+i))
+	}
+
+	return m
 }
 
 func (c zzC04Conc) cid(n int) (s string) {
@@ -230,11 +285,21 @@ func (c zzC04Conc) reqCID(id zzC04ID) (s string) {
 // extracts from a request).
 func (c zzC04Conc) storedStrings(id zzC04ID, owner int) (ss []string) {
 	h := owner*131 + id.X*7 + id.Y*3 + len(id.K)
+	mapIt := c.v.MapStore && !c.v6()
 	alt := func(salt int) (s string) {
 		s = c.idString(id)
 		pat := c.mix(h, salt)
 		switch id.K {
+		case "ip":
+			if mapIt {
+				return zzC04Mapped(c.addr(id.X)).String()
+			}
+
+			return s
 		case "cid", "mac":
+			if id.K == "mac" && c.v.MacLen == 8 && c.v.MacColon8 {
+				s = c.mac(id.X).String()
+			}
 			b := []byte(s)
 			for i := range b {
 				if b[i] >= 'a' && b[i] <= 'z' && pat&(1<<(i%24)) != 0 {
@@ -248,6 +313,9 @@ func (c zzC04Conc) storedStrings(id zzC04ID, owner int) (ss []string) {
 			b := p.Addr().AsSlice()
 			b[len(b)-1] |= byte(pat) & byte(0xff>>uint(id.Y))
 			a, _ := netip.AddrFromSlice(b)
+			if mapIt && pat&0x100 != 0 {
+				return netip.PrefixFrom(zzC04Mapped(a), p.Bits()+96).String()
+			}
 
 			return netip.PrefixFrom(a, p.Bits()).String()
 		default:
@@ -338,11 +406,11 @@ func (a *zzC04Abs) idsOf(p *Persistent) (ids []zzC04ID, ok bool) {
 		ids = append(ids, id)
 	}
 	for _, ip := range p.IPs {
-		id, f := a.ips[ip]
+		id, f := a.ips[ip.Unmap()]
 		add(id, f)
 	}
 	for _, n := range p.Subnets {
-		id, f := a.nets[n.Masked()]
+		id, f := a.nets[zzC04Unmap(n).Masked()]
 		add(id, f)
 	}
 	for _, m := range p.MACs {
@@ -591,6 +659,7 @@ type zzC04Uni struct {
 	LeaseAddrs []int     `json:"leaseaddrs"`
 	W          int       `json:"w"`
 	Zoned      bool      `json:"zoned"`
+	LeaseMACs  []zzC04ID `json:"leasemacs"`
 }
 
 type zzC04State struct {
@@ -761,7 +830,13 @@ func (rn *zzC04Runner) step0(s []int) (out int, concrete string) {
 		addr := rn.conc.addr(rn.uni.LeaseAddrs[a-1])
 		var mac net.HardwareAddr
 		if b != 0 {
-			mac = rn.conc.mac(b)
+			lease := zzC04ID{K: "mac", X: b}
+			for _, lm := range rn.uni.LeaseMACs {
+				if lm.X == b {
+					lease = lm
+				}
+			}
+			mac = rn.conc.leaseMAC(lease)
 		}
 		rn.rig.dhcp.set(addr, mac)
 		concrete = fmt.Sprintf("lease %s -> %v", addr, mac)
@@ -956,9 +1031,99 @@ func (rn *zzC04Runner) effCode(e zzC04Eff, o *zzC04Obs) (c int) {
 	return c
 }
 
+// zzC04Soft is a disagreement in a lookup under an ALTERNATIVE spelling of its
+// argument.  The registry itself was just found in step with the spec (the
+// canonical table agreed), so the tour goes on.
+type zzC04Soft struct {
+	T       string       `json:"t"` // "soft"
+	Alt     string       `json:"alt"`
+	U       string       `json:"u"`
+	Chunk   int          `json:"chunk"`
+	Variant zzC04Variant `json:"variant"`
+	State   int          `json:"state"`
+	Call    string       `json:"call"`
+	Got     int          `json:"got"`
+	Want    int          `json:"want"`
+	Absent  int          `json:"absent"` // Apply only: the answer for the same address without a ClientID
+	What    string       `json:"what"`
+}
+
+// altLookups repeats lookups with other legal spellings of their argument and
+// compares them with the SAME answer of the spec's table:
+//
+//	nettext    Find(text of a prefix)                 -> its owner
+//	cidcase    Find / Apply with the ClientID in upper case
+//	mapped     Find / Apply with the IPv4 address as ::ffff:a.b.c.d
+//	mac8colon  Find(8-byte mac with colons)
+func (rn *zzC04Runner) altLookups(c *zzC04Chunk, state int, o *zzC04Obs, want *zzC04State, soft func(*zzC04Soft)) {
+	if soft == nil {
+		return
+	}
+	report := func(alt, call string, got, w, absent int) {
+		if got == w {
+			return
+		}
+		soft(&zzC04Soft{T: "soft", Alt: alt, U: c.U, Chunk: c.ID, Variant: rn.conc.v, State: state, Call: call, Got: got, Want: w,
+			Absent: absent, What: fmt.Sprintf("%s: got %d, spec %d", call, got, w)})
+	}
+	find := func(s string) (idx int) {
+		var p *Persistent
+		var ok bool
+		rn.nLook++
+		if pm := zzC04Try(func() { p, ok = rn.rig.st.Find(s) }); pm != "" {
+			return -3
+		}
+		idx = rn.nameIdx(p, ok)
+		if idx > 0 && rn.code(p) != o.K[idx-1] {
+			return -4
+		}
+
+		return idx
+	}
+	apply := func(cs string, addr netip.Addr) (code int) {
+		var e zzC04Eff
+		rn.nLook++
+		if pm := zzC04Try(func() { e = rn.rig.effective(cs, addr) }); pm != "" {
+			return -3
+		}
+
+		return rn.effCode(e, &zzC04Obs{})
+	}
+	for i, id := range rn.uni.IDs {
+		switch id.K {
+		case "net":
+			report("nettext", fmt.Sprintf("Find(id %d = %s)", i+1, rn.idStr[i]), o.Fi[i], want.Fi[i][0], 0)
+		case "cid":
+			up := strings.ToUpper(rn.idStr[i])
+			report("cidcase", fmt.Sprintf("Find(id %d = %s)", i+1, up), find(up), want.Fi[i][0], 0)
+		case "mac":
+			if rn.conc.v.MacLen == 8 {
+				colon := rn.conc.mac(id.X).String()
+				report("mac8colon", fmt.Sprintf("Find(id %d = %s)", i+1, colon), find(colon), want.Fi[i][0], 0)
+			}
+		}
+	}
+	for r, cid := range rn.uni.CIDs {
+		if cid.K != "cid" {
+			continue
+		}
+		up := strings.ToUpper(rn.conc.reqCID(cid))
+		for j, a := range rn.uni.Addrs {
+			report("cidcase", fmt.Sprintf("Apply(cid #%d = %s, addr #%d)", r+1, up, j+1), apply(up, rn.conc.addr(a)), want.Ap[r][j], want.Ap[0][j])
+		}
+	}
+	if !rn.conc.v6() {
+		for j, a := range rn.uni.Addrs {
+			m := zzC04Mapped(rn.conc.addr(a))
+			report("mapped", fmt.Sprintf("Find(addr #%d = %s)", j+1, m), find(m.String()), want.Fa[j], 0)
+			report("mapped", fmt.Sprintf("Apply(no ClientID, addr #%d = %s)", j+1, m), apply("", m), want.Ap[0][j], 0)
+		}
+	}
+}
+
 // compare returns a description of the first difference between the
 // observation and the spec's table for state want.
-func zzC04Compare(o *zzC04Obs, want *zzC04State) (diff string) {
+func zzC04Compare(uni *zzC04Uni, o *zzC04Obs, want *zzC04State) (diff string) {
 	if len(o.Bad) > 0 {
 		return o.Bad[0]
 	}
@@ -984,6 +1149,10 @@ func zzC04Compare(o *zzC04Obs, want *zzC04State) (diff string) {
 		return false
 	}
 	for i := range o.Fi {
+		if uni.IDs[i].K == "net" {
+			// lookup by the text of a prefix: compared by altLookups
+			continue
+		}
 		if !in(o.Fi[i], want.Fi[i]) {
 			return fmt.Sprintf("Find(id %d): got client %d, spec admits %v", i+1, o.Fi[i], want.Fi[i])
 		}
@@ -1067,6 +1236,17 @@ func TestZZVerifC04Replay(t *testing.T) {
 	jobs := make(chan *zzC04Chunk)
 	var wg sync.WaitGroup
 	var totalSteps, totalLook, totalBad, doneChunks int
+	// Soft disagreements (alternative-spelling lookups, see altLookups) are
+	// counted; the first few of every kind are written out.
+	softN := map[string]int{}
+	soft := func(sb *zzC04Soft) {
+		wmu.Lock()
+		defer wmu.Unlock()
+		softN[sb.Alt]++
+		if softN[sb.Alt] <= 6 {
+			w.put(sb)
+		}
+	}
 	for wi := 0; wi < workers; wi++ {
 		wg.Add(1)
 		dir := t.TempDir()
@@ -1076,7 +1256,7 @@ func TestZZVerifC04Replay(t *testing.T) {
 			for c := range jobs {
 				var steps, look int
 				var bad *zzC04Bad
-				if pm := zzC04Try(func() { steps, look, bad = zzC04RunChunk(t, unis[c.U], states[c.U], c, dir, rigs) }); pm != "" {
+				if pm := zzC04Try(func() { steps, look, bad = zzC04RunChunk(t, unis[c.U], states[c.U], c, dir, rigs, soft) }); pm != "" {
 					// A failure of the harness itself: the summary will not
 					// add up and the check reports inconclusive.
 					wmu.Lock()
@@ -1103,12 +1283,12 @@ func TestZZVerifC04Replay(t *testing.T) {
 	close(jobs)
 	wg.Wait()
 
-	w.put(map[string]any{"t": "summary", "chunks": doneChunks, "steps": totalSteps, "lookups": totalLook, "bad": totalBad})
+	w.put(map[string]any{"t": "summary", "chunks": doneChunks, "steps": totalSteps, "lookups": totalLook, "bad": totalBad, "soft": softN})
 }
 
 // zzC04RunChunk walks one tour.  It stops at the first disagreement (the real
 // object's state is no longer the spec's).
-func zzC04RunChunk(tb testing.TB, uni *zzC04Uni, states []*zzC04State, c *zzC04Chunk, dir string, rigs zzC04Rigs) (steps, look int, bad *zzC04Bad) {
+func zzC04RunChunk(tb testing.TB, uni *zzC04Uni, states []*zzC04State, c *zzC04Chunk, dir string, rigs zzC04Rigs, soft func(*zzC04Soft)) (steps, look int, bad *zzC04Bad) {
 	rn := zzC04NewRunner(tb, uni, c.Variant, dir, rigs)
 
 	mk := func(i int, src int, edge []int, what, concrete string, hist []string, o *zzC04Obs, want *zzC04State) *zzC04Bad {
@@ -1121,9 +1301,11 @@ func zzC04RunChunk(tb testing.TB, uni *zzC04Uni, states []*zzC04State, c *zzC04C
 		return 0, rn.nLook, mk(-1, c.Start, nil, "after setup: "+refused, setup, nil, nil, states[c.Start])
 	}
 	o := rn.observe()
-	if d := zzC04Compare(o, states[c.Start]); d != "" {
+	if d := zzC04Compare(uni, o, states[c.Start]); d != "" {
 		return 0, rn.nLook, mk(-1, c.Start, nil, "after setup: "+d, setup, nil, o, states[c.Start])
 	}
+
+	rn.altLookups(c, c.Start, o, states[c.Start], soft)
 
 	cur := c.Start
 	var hist []string
@@ -1138,9 +1320,10 @@ func zzC04RunChunk(tb testing.TB, uni *zzC04Uni, states []*zzC04State, c *zzC04C
 			return steps, rn.nLook, mk(i, cur, s, fmt.Sprintf("reply: got %d, spec %d (0 accepted, 1 refused)", out, s[5]), concrete, hist, nil, want)
 		}
 		o = rn.observe()
-		if d := zzC04Compare(o, want); d != "" {
+		if d := zzC04Compare(uni, o, want); d != "" {
 			return steps, rn.nLook, mk(i, cur, s, d, concrete, hist, o, want)
 		}
+		rn.altLookups(c, s[6], o, want, soft)
 		cur = s[6]
 	}
 
@@ -1277,6 +1460,10 @@ type zzC04TLookup struct {
 	Svcs []string  `json:"svcs"`
 	Rng  []string  `json:"rng"`
 	Conc string    `json:"conc"`
+
+	// Alt: the argument is given in an alternative spelling (see altLookups);
+	// the spec's answer does not depend on it.
+	Alt string `json:"alt"`
 }
 
 type zzC04TLine struct {
@@ -1328,6 +1515,12 @@ func zzC04OneTrace(tb testing.TB, w *zzWriter, tr, nOps int, seed int64, dir str
 	// A third of the histories live on link-local IPv6 with zones: address
 	// number = zone<<8 | byte.
 	v.Zoned = rng.Intn(3) == 0
+	// Spellings / lease macs that expose a finding join the histories once the
+	// finding is fixed (checks/c04.py passes the list).
+	flags := os.Getenv("VERIF_C04_FLAGS")
+	v.MapStore = strings.Contains(flags, "mapstore")
+	v.OddLease = strings.Contains(flags, "oddlease")
+	v.MacColon8 = rng.Intn(2) == 0
 	c := zzC04Conc{v: v}
 	zoneOf := func() (z int) {
 		if !v.Zoned || rng.Intn(3) == 0 {
@@ -1461,6 +1654,16 @@ func zzC04OneTrace(tb testing.TB, w *zzWriter, tr, nOps int, seed int64, dir str
 				case k < 3:
 					id := pool[rng.Intn(len(pool))]
 					q.T, q.ID, q.Conc = "find", &id, c.idString(id)
+					switch {
+					case id.K == "net":
+						q.Alt = "nettext"
+					case id.K == "cid" && rng.Intn(2) == 0:
+						q.Alt, q.Conc = "cidcase", strings.ToUpper(q.Conc)
+					case id.K == "mac" && v.MacLen == 8 && rng.Intn(2) == 0:
+						q.Alt, q.Conc = "mac8colon", c.mac(id.X).String()
+					case id.K == "ip" && !c.v6() && rng.Intn(2) == 0:
+						q.Alt, q.Conc = "mapped", zzC04Mapped(c.addr(id.X)).String()
+					}
 					q.R, q.RIDs = absClient(rig.st.Find(q.Conc))
 				case k < 5:
 					a := addrs[rng.Intn(len(addrs))]
@@ -1469,6 +1672,9 @@ func zzC04OneTrace(tb testing.TB, w *zzWriter, tr, nOps int, seed int64, dir str
 					}
 					id := zzC04ID{K: "ip", X: a}
 					q.T, q.ID, q.Conc = "find", &id, c.idString(id)
+					if !c.v6() && rng.Intn(3) == 0 {
+						q.Alt, q.Conc = "mapped", zzC04Mapped(c.addr(a)).String()
+					}
 					q.R, q.RIDs = absClient(rig.st.Find(q.Conc))
 				case k < 6:
 					q.T, q.N = "name", names[rng.Intn(len(names))]
@@ -1490,9 +1696,16 @@ func zzC04OneTrace(tb testing.TB, w *zzWriter, tr, nOps int, seed int64, dir str
 						a = rng.Intn(256) | zoneOf()
 					}
 					q.T, q.ID, q.A = "apply", &cid, a
-					e := rig.effective(cs, c.addr(a))
+					reqAddr := c.addr(a)
+					switch {
+					case cid.K == "cid" && rng.Intn(3) == 0:
+						q.Alt, cs = "cidcase", strings.ToUpper(cs)
+					case !c.v6() && rng.Intn(3) == 0:
+						q.Alt, reqAddr = "mapped", zzC04Mapped(reqAddr)
+					}
+					e := rig.effective(cs, reqAddr)
 					q.R, q.Vals, q.Svcs = e.Who, e.Vals, e.Svcs
-					q.Conc = fmt.Sprintf("cid=%q addr=%s ss=%v/%s", cs, c.addr(a), e.HasSS, e.SSName)
+					q.Conc = fmt.Sprintf("cid=%q addr=%s ss=%v/%s", cs, reqAddr, e.HasSS, e.SSName)
 					// The per-client safe-search object goes with the own values.
 					if e.HasSS && e.SSName != e.Who {
 						q.R = "?safesearch of " + e.SSName
@@ -1618,7 +1831,10 @@ func zzC04OneTrace(tb testing.TB, w *zzWriter, tr, nOps int, seed int64, dir str
 				rig.dhcp.set(c.addr(a), nil)
 			} else {
 				ln.M = zzC04ID{K: "mac", X: 1 + rng.Intn(6)}
-				rig.dhcp.set(c.addr(a), c.mac(ln.M.X))
+				if v.OddLease && rng.Intn(4) == 0 {
+					ln.M = zzC04ID{K: "macx", X: 7 + rng.Intn(3)}
+				}
+				rig.dhcp.set(c.addr(a), c.leaseMAC(ln.M))
 			}
 			ln.Out, ln.Conc = "ok", fmt.Sprintf("lease %s -> %v", c.addr(a), ln.M)
 		}
